@@ -192,11 +192,13 @@ def unit_types():
     return sorted(f[:-4] for f in os.listdir(d) if f.endswith('.hpp'))
 
 
-def units_tu(types=('double',), shapes=True):
+def units_tu(types=('double',), shapes=True, model_type=False):
     """Unit headers; dispatch tables and every conversion entry point instantiated for each unit type."""
     uts = unit_types()
     hs = ['PhQ/Base.hpp', 'PhQ/Unit.hpp', 'PhQ/UnitSystem.hpp'] + ['PhQ/Unit/%s.hpp' % u for u in uts] + \
         ['PhQ/PlanarVector.hpp', 'PhQ/Vector.hpp', 'PhQ/SymmetricDyad.hpp', 'PhQ/Dyad.hpp']
+    if model_type:
+        hs.append('PhQ/ConstitutiveModel.hpp')
     s = includes(hs) + '#include <vector>\nnamespace PhQ { namespace phqv_use {\n'
     n = 0
     for t in types:
@@ -213,5 +215,7 @@ def units_tu(types=('double',), shapes=True):
             s += '  (void)Abbreviation(a); (void)ParseEnumeration<%s>("x"); (void)ConsistentUnit<%s>(UnitSystem::MetreKilogramSecondKelvin); (void)RelatedUnitSystem(a);\n' % (U, U)
             s += '}\n'
     s += 'void use_us(UnitSystem s) { (void)Abbreviation(s); (void)ParseEnumeration<UnitSystem>("x"); }\n'
+    if model_type:
+        s += 'void use_mt(ConstitutiveModel::Type s) { (void)Abbreviation(s); (void)ParseEnumeration<ConstitutiveModel::Type>("x"); }\n'
     s += '} }\n'
     return s
